@@ -8627,17 +8627,23 @@ def aten_repeat_interleave_Tensor(
     if repeats is None:
         repeats = self
         self = op.Range(0, op.Squeeze(op.Shape(repeats, start=-1), [0]), 1)
+    perm = None
     if dim is None:
         # flatten
         self = op.Reshape(self, [-1])
         rank = 1
     else:
         rank = len(self.shape)
+        if rank > 0 and dim % rank != 0:
+            # The algorithm below repeats along axis 0: bring `dim` to the front (and back at the end)
+            perm = list(range(rank))
+            perm[0], perm[dim % rank] = perm[dim % rank], perm[0]
+            self = op.Transpose(self, perm=perm)
 
     if rank > 2:
         shape_x0 = op.Shape(self, start=0, end=1)
         shape_x = op.Shape(self, start=1)
-        self = op.Reshape(self, op.Concat(shape_x0, [-1], axis=0))
+        self = op.Reshape(self, op.Concat(shape_x0, op.Constant(value_ints=[-1]), axis=0))
     elif rank == 1:
         shape_x = None
         self = op.Reshape(self, [-1, 1])
@@ -8658,14 +8664,17 @@ def aten_repeat_interleave_Tensor(
     )
     indices = op.Reshape(srows, [-1])
     values = op.GatherND(self, op.Unsqueeze(indices, [-1]))
-    if rank == 2:
-        return values
-    # shape_x is None at this stage.
-    assert shape_x is None  # for mypy
-    return op.Reshape(
-        values,
-        op.Concat([-1], shape_x, axis=0) if shape_x else [-1],
-    )
+    if rank != 2:
+        values = op.Reshape(
+            values,
+            op.Concat(op.Constant(value_ints=[-1]), shape_x, axis=0)
+            if shape_x is not None
+            else op.Constant(value_ints=[-1]),
+        )
+    if perm is not None:
+        # swapping two axes is its own inverse
+        values = op.Transpose(values, perm=perm)
+    return values
 
 
 @torch_op("aten::reshape", trace_only=True)
